@@ -34,6 +34,7 @@ type InclusiveRangeIterator struct {
 	stepNegative bool
 	step         IntegerValue
 	end          IntegerValue
+	zero         IntegerValue
 }
 
 var _ ValueIterator = &InclusiveRangeIterator{}
@@ -61,6 +62,7 @@ func NewInclusiveRangeIterator(
 		stepNegative: bool(stepNegative),
 		step:         stepValue,
 		end:          endValue,
+		zero:         zeroValue,
 	}
 	i.next = i.validate(startValue, context)
 
@@ -74,14 +76,51 @@ func (i *InclusiveRangeIterator) Next(context ValueIteratorContext) Value {
 	}
 
 	// Update the next value.
-	nextValueToReturn, ok := valueToReturn.Plus(context, i.step).(IntegerValue)
+	i.next = i.successor(valueToReturn, context)
+
+	return valueToReturn
+}
+
+// successor returns the element following current, i.e. current + step,
+// or nil if that element lies beyond the end of the range.
+//
+// It must not compute an element beyond the end: if the end is close to the minimum or maximum
+// of the element type, that addition would overflow or underflow (or wrap around, for Word types).
+func (i *InclusiveRangeIterator) successor(
+	current IntegerValue,
+	context ValueIteratorContext,
+) IntegerValue {
+
+	currentNegative := bool(current.Less(context, i.zero))
+
+	// If current and step point in opposite directions (seen from zero),
+	// the addition moves towards zero and cannot leave the range of the type.
+	if currentNegative != i.stepNegative {
+		next, ok := current.Plus(context, i.step).(IntegerValue)
+		if !ok {
+			panic(errors.NewUnreachableError())
+		}
+		return i.validate(next, context)
+	}
+
+	// Otherwise current lies between zero and end, so the remaining distance, end - current,
+	// can be computed safely. There is a next element only if it is at least as large as step.
+	remaining := i.end.Minus(context, current)
+	if i.stepNegative {
+		if remaining.Greater(context, i.step) {
+			return nil
+		}
+	} else {
+		if remaining.Less(context, i.step) {
+			return nil
+		}
+	}
+
+	next, ok := current.Plus(context, i.step).(IntegerValue)
 	if !ok {
 		panic(errors.NewUnreachableError())
 	}
-
-	i.next = i.validate(nextValueToReturn, context)
-
-	return valueToReturn
+	return next
 }
 
 func (i *InclusiveRangeIterator) validate(
